@@ -274,9 +274,12 @@ func init() {
 		Rule: "one case = one generated workflow, one tape-chosen victim task and one failure kind (cmd-exit before / after partial write / after all outputs, cmd-signal at a tape-chosen micro-step, cmd-omit of one declared output, cmd-list: the command is an && list whose middle step fails after the first step wrote all outputs, bad-input: empty parameter value or invalid character in the output path) injected while sibling tasks run under a tape-chosen schedule. Oracle: exit status != 0, RUN-RETURNED marker absent, no output of the victim at its final path, no start event of any transitive dependant, everything else that was finalized is reference-correct; optional history: temp directories removed, same workflow and failure again - the second attempt must stop the same way. distinct = event-log hash; non-trivial = the fault fired, >=1 other task executed, >=1 non-default choice",
 		Run: func(c *Case) Verdict {
 			var w *WF
-			if c.Tape.Choose(simrt.StGen, 8, 0) == 1 {
+			switch c.Tape.Choose(simrt.StGen, 10, 0) {
+			case 1:
 				w = streamWF(c) // the failing command may be a streaming producer or its consumer
-			} else {
+			case 2:
+				return combinatorFailCase(c)
+			default:
 				w = Generate(c.Tape, tierProfile(profC09, c.Tier))
 			}
 			ex := Eval(w)
@@ -290,7 +293,50 @@ func init() {
 				c.Probe("trivial-case-nothing-to-fail")
 				return OK()
 			}
-			kind := c.Tape.Choose(simrt.StFault, 8, 0)
+			kind := c.Tape.Choose(simrt.StFault, 10, 0)
+			if kind == 9 {
+				// an output path that runs THROUGH a regular file (an input used as a
+				// directory): the task cannot be formed / finalized
+				var pn *Node
+				for i := range w.Nodes {
+					n := &w.Nodes[i]
+					if n.Kind == KProc && n.Custom == 0 && len(n.Ins) > 0 && !n.Ins[0].Join && len(n.Outs) > 0 && !n.Outs[0].Stream {
+						pn = n
+						break
+					}
+				}
+				if pn == nil || len(ex.StreamPaths) > 0 {
+					// (a streamed input is a FIFO that is gone afterwards, not a regular file)
+					kind = c.Tape.Choose(simrt.StFault, 5, 0)
+				} else {
+					var victims []*RTask
+					for _, t := range ex.Tasks {
+						if t.Proc == pn.Name {
+							victims = append(victims, t)
+						}
+					}
+					pn.Outs[0].Pattern = "{i:" + pn.Ins[0].Name + "}/inside." + pn.Name + ".o0"
+					if len(victims) == 0 {
+						c.Probe("trivial-case-nothing-to-fail")
+						return OK()
+					}
+					what := "bad-input (output path runs through a regular file)"
+					c.Fault("bad-input-path-through-file")
+					c.Sample = "fail every task of " + pn.Name + " by " + what + ": " + sample(w)
+					inc := RunInc(w, c.Tape, nil, 0, IncOpts{KillAt: -1, Strategy: strategyOf(c.Tape), Trace: c.Trace})
+					c.Absorb(inc)
+					c.Tasks++
+					for i, v := range victims {
+						var others []*RTask
+						others = append(others, victims[:i]...)
+						others = append(others, victims[i+1:]...)
+						if vd := failureOracle(inc, ex, v, what, others...); vd.Status != "ok" {
+							return vd
+						}
+					}
+					return OK()
+				}
+			}
 			var victim *RTask
 			what := ""
 			var fault *FaultSpec
@@ -343,7 +389,7 @@ func init() {
 					return OK()
 				}
 			}
-			if kind >= 5 {
+			if kind >= 5 && kind != 7 {
 				// bad input: needs a parameter port fed by FromStr
 				var pn *Node
 				for i := range w.Nodes {
@@ -366,6 +412,10 @@ func init() {
 						pn.Params[0].Vals[i] = ""
 						what = "bad-input (empty parameter value)"
 						c.Fault("bad-input-empty-param")
+					} else if kind == 8 {
+						pn.Params[0].Vals[i] = strings.Repeat("x", 300)
+						what = "bad-input (file name longer than NAME_MAX)"
+						c.Fault("bad-input-name-too-long")
 					} else {
 						pn.Params[0].Vals[i] = "bad value*"
 						what = "bad-input (invalid output path)"
@@ -909,4 +959,59 @@ func repeatedInputOrderCase(c *Case) Verdict {
 		return Viol("out-of-order", "", "edge p0.o0->use.a: items left as %v, the inputs arrived as %v", got, rep)
 	}
 	return OK()
+}
+
+// combinatorFailCase: a FileCombinator one of whose in-ports gets an empty
+// stream while a (slow) task upstream of another port fails: the workflow
+// must not report completion just because the product is empty.
+func combinatorFailCase(c *Case) Verdict {
+	t := c.Tape
+	w := &WF{Name: "wf", Sources: map[string]string{}}
+	ports := []string{"a", "b", "c"}
+	k := 2 + t.Choose(simrt.StGen, 2, 0)
+	empty := t.Choose(simrt.StGen, k, 0)
+	cmb := Node{Name: "comb", Kind: KFileCombinator}
+	for i := 0; i < k; i++ {
+		n := 1 + t.Choose(simrt.StGen, 3, 0)
+		if i == empty {
+			n = 0
+		}
+		e := Edge{srcNode(w, "src"+ports[i], n, ""), "out"}
+		if i != empty {
+			e = Edge{oneToOne(w, "pre"+ports[i], e), "o0"}
+		}
+		cmb.Ins = append(cmb.Ins, InSpec{Name: ports[i], From: []Edge{e}})
+		cmb.Outs = append(cmb.Outs, OutSpec{Name: ports[i]})
+	}
+	ci := addNode(w, cmb)
+	var outs []Edge
+	for i := 0; i < k; i++ {
+		outs = append(outs, Edge{ci, ports[i]})
+	}
+	zipConsumer(w, "use", outs, ports[:k])
+	w.MaxTasks = 1 + t.Choose(simrt.StGen, 4, 0)
+	w.Bufsize = bufsizeOf(t)
+	ex := Eval(w)
+	var cands []*RTask
+	for _, tk := range ex.Tasks {
+		if strings.HasPrefix(tk.Proc, "pre") {
+			cands = append(cands, tk)
+		}
+	}
+	if len(cands) == 0 {
+		c.Probe("trivial-case-nothing-to-fail")
+		return OK()
+	}
+	victim := cands[t.Choose(simrt.StFault, len(cands), 0)]
+	mode := simrt.FailMode(1 + t.Choose(simrt.StFault, 4, 0))
+	fault := &FaultSpec{Key: victim.Key, Mode: mode, Arg: t.Choose(simrt.StFault, 6, 0)}
+	what := mode.String() + " upstream of a FileCombinator with an empty port"
+	c.Sample = "fail " + victim.Key + " by " + what + ": " + sample(w)
+	inc := RunInc(w, c.Tape, nil, 0, IncOpts{KillAt: -1, Strategy: strategyOf(c.Tape), Trace: c.Trace, Fault: fault})
+	c.Absorb(inc)
+	c.Tasks++
+	if !fault.Hit && completedOK(inc) {
+		return Skipped(Viol("task-lost", "", "task %s was never executed", victim.Key))
+	}
+	return failureOracle(inc, ex, victim, what)
 }
